@@ -4,6 +4,7 @@ import json, os
 ROOT = os.path.dirname(os.path.dirname(os.path.abspath(__file__)))
 
 CLAIMED = {
+    "C16": ("§4 C16", "differential execution: the same client action list (session family x split offset x ending) is run against the real asyncio TCPServer on a virtual loop and the real trio TCPServer under a MockClock; application message sequences, bytes written per step, server close time and handler completion must be identical"),
     "C07": ("§4 C07", "real TCPServer of both workers on virtual time (asyncio loop with a virtual selector, trio with a manually stepped MockClock): idle-timeout histories (phases x gap classes relative to keep_alive_timeout) against a reference timeline, HTTP/2 and WebSocket idleness, peer loss (EOF, reset, write failure) at five points; H2 idle computation one step"),
     "C04": ("§4 C04", "bounded sequences of odd-but-legal HTTP/2 exchanges (18 kinds, raw frames) next to a sibling stream, single-byte mutations at every (quick: strided) position of 5 valid HTTP/1, HTTP/2 and WebSocket transcripts, odd handshake header values on both carriers: no exception escapes the connection handler and stream-level oddities stay on their stream (frame-level observer)"),
     "C18": ("§4 C18", "mark_request of both workers for every counter/max_requests value (unbounded ints, arbitrary pre-state), h11_max_incomplete_size x head length around the limit x split position, h2_max_concurrent_streams and h2_max_header_list_size against a client that ignores the advertised limits, HTTP/2 keep_alive_max_requests x requests sent"),
